@@ -23,7 +23,7 @@ ASSUMPTIONS = [
 ]
 MONITORS = "independent walk of the workspace (bytes, directories, exec bits) after apply; second compare's action lists; onerror recorder; audit-hook log of removals"
 REQUIRED_COUNTERS = [
-    "same_index_histories", "two_cache_targets", "implicit_parent_targets", "unavailable_directory_object_cases", "applies", "kind_swap_cases", "nested_dir_deletions", "lazy_targets", "explicit_targets", "delete_off_cases",
+    "priors_with_symlink_to_directory", "same_index_histories", "two_cache_targets", "implicit_parent_targets", "unavailable_directory_object_cases", "applies", "kind_swap_cases", "nested_dir_deletions", "lazy_targets", "explicit_targets", "delete_off_cases",
     "unavailable_source_cases", "second_compares", "exec_entries_checked", "link/hardlink", "link/symlink", "link/copy",
 ]
 
@@ -153,6 +153,16 @@ def run_shard(ctx):
             gen.write_tree(ws, P, Pe)
             for k in pexec:
                 os.chmod(os.path.join(ws, *k), 0o755)
+            # the prior workspace may hold a symbolic link to a directory elsewhere (not part of the target)
+            dirlink = None
+            if delete and rng.random() < 0.06 and os.path.isdir(os.path.join(ws, top)) and (top, "lnk-to-dir") not in T and (top, "lnk-to-dir") not in indexlab.dirs_of(T, Te):
+                outside = os.path.join(d, "elsewhere-dir")
+                os.makedirs(outside, exist_ok=True)
+                with open(os.path.join(outside, "precious"), "wb") as f:
+                    f.write(b"not part of the workspace")
+                dirlink = os.path.join(ws, top, "lnk-to-dir")
+                os.symlink(outside, dirlink)
+                res.count("priors_with_symlink_to_directory")
 
             cfg = {"two_caches": ("/".join(sub_prefix), "child-first" if child_first else "parent-first") if sub_cache is not None else None, "implicit_parents": implicit_parents, "lazy": lazy, "lazy_at": "/".join(lazy_at) if lazy else None, "delete": delete, "link": link, "update_meta": update_meta, "state": use_state, "ops": ops[:8],
                    "swapped": swapped, "prior": sorted("/".join(k) for k in P), "target": sorted("/".join(k) for k in T),
@@ -263,6 +273,11 @@ def run_shard(ctx):
                               detail={**cfg, "errors": errors[:5]})
             if not unavailable and not blocked and errors:
                 res.violation("spurious-error-callback", f"onerror called although every source is available: {errors[:2]}", case=case, detail=cfg)
+            if dirlink is not None and apply_exc is None:
+                if not os.path.isfile(os.path.join(d, "elsewhere-dir", "precious")):
+                    res.violation("data-outside-the-workspace-removed/through-symlinked-directory", "the target of a symlinked directory in the prior workspace was emptied", case=case, detail=cfg)
+                elif os.path.lexists(dirlink) and not unavailable:
+                    res.violation("extra-path-left/symlink-to-directory", "a symbolic link to a directory, not in the target, is still in the workspace after apply(delete=True)", case=case, detail=cfg)
             if delete:
                 extra = sorted(k for k in got if k not in T)
                 if extra and not unavailable:
